@@ -404,10 +404,11 @@ def run(ctx):
     ctx.notes.append("templates: %d generated, %d compared, %d mismatches" % (N, len(lines), len(mism)))
     T.c02_copies(ctx, exe, lines, expected)          # the same through a copy of the parsed tag array (round c)
     T.c02_group(ctx, drv, exe, enc)                  # <loop group=> on items with differing member orders (round c)
+    T.c02_narrow_fields(ctx, drv, exe)               # every 8/16-bit tag field at limit-1 / limit / limit+1 (round g)
     ctx.assumptions += ["well-formedness side conditions are those of the generator (see META.note)",
                         "number formatting of reals, sort=, group= are decided by C10 / C15 / C18"]
 
 
 FINISH = dict(level="proof",
-              rule="every 5th (quick) / 2nd (thorough) render repeated in SSE2 and AVX2 builds and compared with the scalar build; generated template trees (text, var, raw, math, svar, inline if, if chains, loops nested <= 3; block tags nested 7..13 deep with loops at the 8/9 boundary; super-variable phrases with wide units whose low byte is an ASCII digit) x generated value trees, widths 1/2/4/wchar_t; printed by the Lean printer, rendered by the real code on exact-size buffers under ASan/UBSan, compared with the Lean reference expansion; round c: non-Latin-1 units that are a special character under a mask on every escaped path (widths 2/4/W), every 9th line again through a copy of the parsed tags, <loop group=> over objects with differing member orders against the Lean grouping specification; non-trivial = contains at least one tag",
+              rule="every 5th (quick) / 2nd (thorough) render repeated in SSE2 and AVX2 builds and compared with the scalar build; generated template trees (text, var, raw, math, svar, inline if, if chains, loops nested <= 3; block tags nested 7..13 deep with loops at the 8/9 boundary; super-variable phrases with wide units whose low byte is an ASCII digit) x generated value trees, widths 1/2/4/wchar_t; printed by the Lean printer, rendered by the real code on exact-size buffers under ASan/UBSan, compared with the Lean reference expansion; round g: every 8/16-bit field of the tag records and every SizeT8/SizeT16 cast of Template.hpp driven to limit-1 / limit / limit+1 (255/256/257, 65535/65536/65537) by the template quantity behind it, in every tag kind and position, alone and nested once (inventory re-derived from the headers each run; judged when all driven quantities are below their limits, else under the finding name-of-256-units-or-more); round c: non-Latin-1 units that are a special character under a mask on every escaped path (widths 2/4/W), every 9th line again through a copy of the parsed tags, <loop group=> over objects with differing member orders against the Lean grouping specification; non-trivial = contains at least one tag",
               checker_cmd="cd lean && lake build Qentem.Props.C01 Qentem.Props.C04 Qentem.Props.C03 && lake env lean <#print axioms>")
